@@ -298,6 +298,21 @@ def enum_job(job):
                             acc.nontrivial("overlap-enum", repr(case))
                             for key, msg, c in judge(run(case), invariants, prop):
                                 acc.fail(key, msg, c)
+    # ties: the LATE answer to the first caller's first transmission reaches the client at the very instant at which something
+    # else arrives for the transmission that is pending by then (head of a fragmented answer, lone fragment, garbage, exception
+    # frame) - both are handled in the same loop iteration, the third transmission is lost / answered
+    for L in (17, 18, 20, 21, 24):
+        d = L - 16
+        for a1 in (["frag", 9, d, 6], ["lone", 9, d], ["garbage", d], ["exc", d, 2], ["frag", 9, d, d]):
+            for a2 in (["drop"], ["answer", 2], ["answer", 14]):
+                for pair in ((0, 1), (2, 0)) if transport != "aa55" else ((0, 1), (3, 0)):
+                    case = {"overlap": True, "transport": transport, "keep": keep, "R": 2, "api": api, "streak": 0,
+                            "callers": [{"spec": list(specs[pair[0]]), "start": 0}, {"spec": list(specs[pair[1]]), "start": 0}],
+                            "script": [["answer", L], a1, a2]}
+                    acc.case()
+                    acc.nontrivial("overlap-ties", repr(case))
+                    for key, msg, c in judge(run(case), invariants, prop):
+                        acc.fail(key, msg, c)
     if "budget" in invariants:
         # one caller is never answered, the others are answered at once: the silent one makes exactly retries+1 transmissions
         for R in (1, 2, 3):
